@@ -1396,6 +1396,12 @@ pub fn codegen(
         // already used earlier in the same pass, so everything needs to be re-evaluated once more.
         let symbols_added = ctx.symbols.node_count() != symbol_count;
 
+        #[cfg(mos_verif)]
+        if verif::observe_pass(&ctx, &errors, &prev_errors, &prev_undefined, symbols_added) == verif::VerifPassAction::Stop {
+            errors.push(Diagnostic::error().with_message(verif::STOPPED_MESSAGE));
+            return (Some(ctx), errors);
+        }
+
         // Are there no segments yet? Then create a default one.
         if ctx.segments.is_empty() {
             log::trace!("Creating default segment");
@@ -1459,6 +1465,230 @@ pub fn codegen(
     }
 
     (Some(ctx), errors)
+}
+
+/// Verification hook H1 (only with `--cfg mos_verif`): a thread-local observer that is called after every assembly
+/// pass with a digest of the complete loop state and may stop the pass loop, plus `verif_extra_pass`, which runs one
+/// more pass over an already converged context and reports what changed.
+#[cfg(mos_verif)]
+pub mod verif {
+    use super::*;
+    use std::cell::RefCell;
+    use std::collections::hash_map::DefaultHasher;
+    use std::hash::{Hash, Hasher};
+
+    pub const STOPPED_MESSAGE: &str = "verif: pass loop stopped by the pass observer";
+
+    #[derive(Clone, Copy, Debug, PartialEq, Eq)]
+    pub enum VerifPassAction {
+        Continue,
+        Stop,
+    }
+
+    #[derive(Clone, Debug)]
+    pub struct VerifPassInfo {
+        /// index of the pass that just completed (0-based)
+        pub pass_idx: usize,
+        /// digest of everything the next iteration of the pass loop depends on: symbol paths/types/values, the
+        /// undefined set, the errors of this pass, the previous undefined set and previous errors, segment options,
+        /// final pcs, ranges and bytes, the current segment, the banks, and whether this pass added symbols
+        pub digest: u64,
+        /// digest of (symbol paths, types, values) only
+        pub symbols_digest: u64,
+        /// digest of the segments (names, options, ranges, bytes) only
+        pub segments_digest: u64,
+        /// digest of the undefined set only
+        pub undefined_digest: u64,
+        /// digest of the errors of this pass only
+        pub errors_digest: u64,
+        pub undefined: usize,
+        pub errors: usize,
+        /// number of nodes in the symbol graph
+        pub node_count: usize,
+        /// did this pass add nodes to the symbol graph (the loop then runs another pass)
+        pub symbols_added: bool,
+        /// number of segments (0 after the first pass of a program that defines none: the loop then creates `default`)
+        pub segment_count: usize,
+    }
+
+    pub type VerifPassObserver = Box<dyn FnMut(&VerifPassInfo) -> VerifPassAction>;
+
+    thread_local! {
+        static OBSERVER: RefCell<Option<VerifPassObserver>> = RefCell::new(None);
+    }
+
+    /// Installs (or removes, with `None`) the pass observer of the current thread; returns the previous one.
+    pub fn verif_set_pass_observer(observer: Option<VerifPassObserver>) -> Option<VerifPassObserver> {
+        OBSERVER.with(|o| std::mem::replace(&mut *o.borrow_mut(), observer))
+    }
+
+    fn h<T: Hash>(t: &T) -> u64 {
+        let mut s = DefaultHasher::new();
+        t.hash(&mut s);
+        s.finish()
+    }
+
+    fn symbol_data_digest(data: &SymbolData) -> u64 {
+        match data {
+            SymbolData::MacroDefinition(def) => h(&("macro", def.id.data.as_str(), def.args.len(), def.block.len())),
+            SymbolData::Number(n) => h(&("num", *n)),
+            SymbolData::Placeholder => h(&"placeholder"),
+            SymbolData::String(s) => h(&("str", s.as_str())),
+        }
+    }
+
+    /// (path, type, value digest) of every symbol that holds data, sorted by path
+    pub fn symbol_entries(ctx: &CodegenContext) -> Vec<(String, String, u64)> {
+        let mut v: Vec<(String, String, u64)> = ctx
+            .symbols
+            .all()
+            .into_iter()
+            .map(|(path, (_, s))| (path.to_string(), format!("{:?}", s.ty), symbol_data_digest(&s.data)))
+            .collect();
+        v.sort();
+        v
+    }
+
+    fn undefined_entries(u: &HashSet<UndefinedSymbol>) -> Vec<(usize, String, Option<Span>)> {
+        let mut v: Vec<(usize, String, Option<Span>)> =
+            u.iter().map(|u| (u.scope_nx.index(), u.id.to_string(), u.span)).collect();
+        v.sort();
+        v
+    }
+
+    fn error_entries(e: &Diagnostics) -> Vec<(String, Vec<Span>)> {
+        e.iter()
+            .map(|d| (d.message.clone(), d.labels.iter().map(|l| l.file_id).collect()))
+            .collect()
+    }
+
+    /// (name, digest of options + final pc + range + bytes) per segment, in definition order
+    pub fn segment_entries(ctx: &CodegenContext) -> Vec<(String, u64)> {
+        ctx.segments
+            .iter()
+            .map(|(name, seg)| {
+                let o = seg.options();
+                (
+                    name.to_string(),
+                    h(&(
+                        o.bank.as_ref().map(|b| b.to_string()),
+                        o.initial_pc.as_usize(),
+                        o.write,
+                        o.target_address.as_usize(),
+                        seg.pc().as_usize(),
+                        seg.range(),
+                        seg.range_data(),
+                    )),
+                )
+            })
+            .collect()
+    }
+
+    pub(super) fn observe_pass(
+        ctx: &CodegenContext,
+        errors: &Diagnostics,
+        prev_errors: &Diagnostics,
+        prev_undefined: &HashSet<UndefinedSymbol>,
+        symbols_added: bool,
+    ) -> VerifPassAction {
+        OBSERVER.with(|o| {
+            let mut o = o.borrow_mut();
+            match o.as_mut() {
+                None => VerifPassAction::Continue,
+                Some(observer) => {
+                    let symbols_digest = h(&symbol_entries(ctx));
+                    let segments_digest = h(&segment_entries(ctx));
+                    let undefined_digest = h(&undefined_entries(&ctx.undefined));
+                    let errors_digest = h(&error_entries(errors));
+                    let banks: Vec<(String, Option<usize>, Option<u8>, bool, Option<String>)> = ctx
+                        .banks
+                        .iter()
+                        .map(|(n, b)| (n.to_string(), b.size, b.fill, b.create_segment, b.filename.clone()))
+                        .collect();
+                    let digest = h(&(
+                        symbols_digest,
+                        segments_digest,
+                        undefined_digest,
+                        errors_digest,
+                        undefined_entries(prev_undefined),
+                        error_entries(prev_errors),
+                        ctx.current_segment.as_ref().map(|s| s.to_string()),
+                        banks,
+                        symbols_added,
+                    ));
+                    let info = VerifPassInfo {
+                        pass_idx: ctx.pass_idx,
+                        digest,
+                        symbols_digest,
+                        segments_digest,
+                        undefined_digest,
+                        errors_digest,
+                        undefined: ctx.undefined.len(),
+                        errors: errors.len(),
+                        node_count: ctx.symbols.node_count(),
+                        symbols_added,
+                        segment_count: ctx.segments.len(),
+                    };
+                    observer(&info)
+                }
+            }
+        })
+    }
+
+    /// What one more pass over a converged context changed.
+    #[derive(Clone, Debug, Default)]
+    pub struct VerifExtraPass {
+        /// symbols (path) that were added, removed, or whose type/value differs after the extra pass
+        pub changed_symbols: Vec<String>,
+        /// segments (name) that were added, removed, or whose options/pc/range/bytes differ after the extra pass
+        pub changed_segments: Vec<String>,
+        /// number of diagnostics the extra pass raised
+        pub errors: usize,
+        /// size of the undefined set after the extra pass
+        pub undefined: usize,
+    }
+
+    impl CodegenContext {
+        /// Runs one more pass (as the pass loop would) over a context returned by `codegen` and reports what changed.
+        /// The observer is not called. The context is left in the state after the extra pass.
+        pub fn verif_extra_pass(&mut self) -> VerifExtraPass {
+            let symbols_before = symbol_entries(self);
+            let segments_before = segment_entries(self);
+            self.undefined.clear();
+            self.next_pass();
+            let tree = self.tree.clone();
+            let errors = match self.emit_tokens(&tree.main_file().tokens) {
+                Ok(()) => 0,
+                Err(e) => e.len(),
+            };
+            let _ = self.after_pass();
+            let symbols_after = symbol_entries(self);
+            let segments_after = segment_entries(self);
+            fn diff<T: Clone + PartialEq>(a: &[(String, T)], b: &[(String, T)]) -> Vec<String> {
+                let mut out = vec![];
+                for x in a {
+                    if !b.contains(x) {
+                        out.push(x.0.clone());
+                    }
+                }
+                for x in b {
+                    if !a.contains(x) && !out.contains(&x.0) {
+                        out.push(x.0.clone());
+                    }
+                }
+                out.sort();
+                out
+            }
+            let sa: Vec<(String, (String, u64))> = symbols_before.into_iter().map(|(p, t, d)| (p, (t, d))).collect();
+            let sb: Vec<(String, (String, u64))> = symbols_after.into_iter().map(|(p, t, d)| (p, (t, d))).collect();
+            VerifExtraPass {
+                changed_symbols: diff(&sa, &sb),
+                changed_segments: diff(&segments_before, &segments_after),
+                errors,
+                undefined: self.undefined.len(),
+            }
+        }
+    }
 }
 
 #[cfg(test)]
